@@ -192,6 +192,13 @@ class Walker:
             if idx < len(e["args"]):
                 self.site(e, e["args"][idx], st, "helper " + e["f"]["path"])
             return
+        if k == "Call" and e["f"].get("path") in getattr(self, "builders", {}):
+            idxs = self.builders[e["f"]["path"]]
+            for a in e["args"]:
+                self.scan_expr(a, st)
+            if all(i < len(e["args"]) for i in idxs):
+                self.site(e, {"k": "Macro", "name": "vec", "args": [e["args"][i] for i in idxs]}, st, "builder " + e["f"]["path"])
+            return
         if k == "Call" and e["f"].get("path") in self.poppers:
             # a local helper that pops values itself without reporting them through RestoreValues:
             # whatever this function restores afterwards cannot include them
@@ -464,6 +471,18 @@ def restore_sites(ctx, res=None):
                 uses = [n for n in S.walk(fn["body"]) if n["k"] == "Call" and n["f"].get("path") == "RestoreValues" and n["args"] and n["args"][0].get("path") == p["name"]]
                 if uses:
                     helpers[fn["name"]] = i
+    # builders: error constructors that pop nothing and wrap (clones of) their own parameters, in a fixed order
+    builders = {}
+    for fn in targets:
+        if fn["name"] in helpers or has_pop(fn["body"]):
+            continue
+        rvs = [n for n in S.walk(fn["body"]) if n["k"] == "Call" and n["f"].get("path") == "RestoreValues" and n["args"]]
+        if len(rvs) != 1 or not (rvs[0]["args"][0]["k"] == "Macro" and rvs[0]["args"][0]["name"] == "vec" and "args" in rvs[0]["args"][0]):
+            continue
+        pn = [p_["name"] for p_ in fn["params"]]
+        elems = [norm(a) for a in rvs[0]["args"][0]["args"]]
+        if all(isinstance(x, str) and x in pn for x in elems):
+            builders[fn["name"]] = [pn.index(x) for x in elems]
     # fallible local helpers that pop values but do not return RestoreValues themselves
     target_names = {fn["name"] for fn in targets}
     poppers = set()
@@ -490,7 +509,10 @@ def restore_sites(ctx, res=None):
         for name, idx in helpers.items():
             if name == fn["name"]:
                 vecs[fn["params"][idx]["name"]] = None   # passthrough parameter
+        if fn["name"] in builders:
+            continue    # checked at its call sites, with the arguments substituted
         w = Walker(ctx, fn, helpers, initial)
+        w.builders = builders
         w.poppers = poppers
         st = {"popped": list(initial), "vecs": vecs}
         w.walk_block(fn["body"], st)
